@@ -1,3 +1,8 @@
 import AslModel.Props.C04
 import AslModel.Props.C02
 import AslModel.Props.C01
+import AslModel.Lemmas.PFile
+import AslModel.Model.CodeFile
+import AslModel.Model.Data
+import AslModel.Lemmas.Cond
+import AslModel.Model.Cond
